@@ -583,3 +583,7 @@ for _p in ("C02", "C12"):
     PROPS[_p]["claim"] += (" END TO END: generated_newV2Session_sound (Proofs/EndToEnd/HandshakeC02.lean) — if newV2Session AS TRANSLATED FROM THE SOURCE ON THIS RUN "
                            "returns a session, the Open Session Response confirmed exactly the proposal and the RAKP 2 code / RAKP 4 check value received ARE the keyed "
                            "hashes of the exchange under the caller's password / the SIK, for every BMC, every draw and every option value.")
+PROPS["C12"]["proofs"] = PROPS["C12"]["proofs"] + ["Bmc.Proofs.EndToEnd.DiscoveryC12"]
+PROPS["C12"]["claim"] += (" generated_determineCipherSuite_first_preference (Proofs/EndToEnd/DiscoveryC12.lean): against a BMC serving the specification's encoding "
+                          "of any well-formed record list, a proposal made by determineCipherSuite AS TRANSLATED ON THIS RUN (two or more preferences) is the first "
+                          "preference some record advertises.")
